@@ -57,6 +57,22 @@ real code, against a boring reference model (plain Python: controller name -> in
                 count_panel_trajectory_expressions, get_status_id_manager, str, signature tree, engine values on a table
                 that holds the renamed columns - must equal that of the hand-written formula of the configuration after
                 the same operations, and the plain-Python reference (the operation applied to the term, stdlib math).
+ part 'names'   (tasks whose structure is called '<name>~<shape>'): the same structures with the names of controllers,
+                catalogs, members and the generic names of the helper generators rewritten by every SHAPE of names - only
+                ';' and ':' are reserved, every other string is a name and two names are the same only as the same string:
+                'blank-ends' (each name of the seed with a blank / tab / no-break space / two blanks at one end or both),
+                'twins' (names that differ from each other only by letter case, by white space at an end or by the encoding
+                of an accented letter, so that any normalisation merges two of them) and 'marks' (punctuation a parser,
+                pattern or format string could give a meaning to: . | [ ] = , { } ( ) " * / % backslash ? ' & # + ^ $).  Parts static,
+                ops, hidden, confobj and orders (thorough: + chains, every way of obtaining a Configuration object, depth 2)
+                with the unchanged reference model.  The part 'orders' (all structures, shaped or not) also renames the last
+                member into a name that differs from the controller's only by a blank at its end / only by letter case:
+                such a catalog lacks the alternative and must be refused.
+ part 'numbers' (tasks carrying `numbers`): the structures that hand plain numbers to catalogs / segmentations (a member
+                that is a number; the keys of the mappings of the potential segmentations) with those numbers given as
+                numbers of numpy (int64, int32, uint8, int16, uint64, int8, uint16, intc / float64, float32, float16,
+                longdouble in rotation, same values): static and hidden (thorough: + ops) against the hand-written formula
+                with Python's numbers.
 """
 from __future__ import annotations
 
@@ -83,7 +99,11 @@ TECHNIQUE = ('explicit-state exploration of the configuration graph of 17 (+1 in
              'configuration x tree operation (rename_elementary, fix_betas, change_init_values with every prefix/suffix option; '
              'histories of 2) x {shared, per-occurrence elementary objects, deep copy}: all observers of the elementary '
              'expressions, text, signature and engine values against the hand-written formula after the same operations and '
-             'against the operation applied to the term in plain Python')
+             'against the operation applied to the term in plain Python; the static / operator / hidden-state / Configuration-object / '
+             'member-order exploration repeated on every structure with its controller, catalog, member and generic names rewritten '
+             'by 3 shapes of names (white space at the ends; names differing only by case, end blanks or unicode encoding; '
+             'punctuation other than the reserved ";" and ":"), and with the plain numbers given to catalogs and segmentations '
+             'handed over as numbers of numpy')
 RULE = ('one case per (structure, configuration, listing order) identifier check, per (structure, configuration, '
         'entry point, parameter point) evaluation against the hand-written formula, per visited element of an '
         'iteration, and per operator application (structure, hidden state, argument configuration, operator, step, '
@@ -96,7 +116,8 @@ RULE = ('one case per (structure, configuration, listing order) identifier check
         'explicitly) are the same cases keyed additionally by the variant. Part orders: one case per (structure, declared / '
         'as described, altered catalogs and their alteration, constructor), all non-trivial. Part treeops: one case per '
         '(structure, configuration, way the elementary objects are held, history of operations); non-trivial when the '
-        'history changes the hand-written formula (or is the observers-only history). distinct = distinct such keys.')
+        'history changes the hand-written formula (or is the observers-only history). Parts names / numbers: the same cases on '
+        'the structure named <name>~<shape> / keyed additionally by the kind of number. distinct = distinct such keys.')
 ASSUMPTIONS = [
     'names of controllers, catalogs and members do not contain the reserved characters ";" and ":" and catalog '
     'names are unique in a formula (the library reserves / requires this)',
@@ -116,6 +137,11 @@ ASSUMPTIONS = [
     'a catalog handed to a controller whose names it does not list in the same order may be refused (any exception raised '
     'by the library while it is declared counts as refused) or accepted; if accepted, "matching alternative" means the member '
     'carrying the name the controller selects; a catalog lacking one of the names must be refused',
+    'a name is any string without ";" and ":" (white space, punctuation, any letter case and unicode encoding included); two '
+    'names are the same name only when they are the same string; shapes of names explored: blank-ends, twins, marks (empty '
+    'names and names containing line breaks are not in the alphabet)',
+    'the numbers of numpy (numpy.integer, numpy.floating) are valid wherever a catalog member / a key of a segmentation mapping '
+    'is a plain number and mean the same value (repository commit 54cc724)',
     'structures are bounded: <= 3 controllers, <= 4 selections per controller, <= 12 configurations per structure (24 in the thorough tier)',
 ]
 ANCHOR_FILES = ['src/biogeme/catalog.py', 'src/biogeme/controller.py', 'src/biogeme/configuration.py',
@@ -163,8 +189,8 @@ def alphabet(seed):
 # generic names handed to the helper generators; the structures, tables and parameters stay those of the seed.
 NAME_SHAPES = ('blank-ends', 'twins', 'marks')
 _NAME_KEYS = ('c1', 'c2', 'c3', 'K', 'G', 'GA', 'GB')
-# white space at either end: blank, tab, no-break space, two blanks, a blank at both ends
-_BLANK_ENDS = (' {}', '{} ', ' {} ', '\t{}', '{}\t', ' {}', '{}  ', '{} ', '  {}', '\t{} ', ' {}\t')
+# white space at either end: blank, tab, no-break space (U+00A0), two blanks, white space at both ends
+_BLANK_ENDS = (' {}', '{} ', ' {} ', '\t{}', '{}\t', '\u00a0{}', '{}  ', '{}\u00a0', '  {}', '\t{} ', ' {}\t')
 # punctuation that a parser / formatter / pattern could give a meaning to (never ';' nor ':')
 _MARKS = ('{}.1', '{}|{}', '[{}]', '{}={}', '{},{}', '{{{}}}', '({})', '"{}"', '{}*', '{}/{}', '%s{}', '\\{}', '{}?', "'{}", '{}&{}', '#{}',
           '{}+', '^{}$')
@@ -198,7 +224,7 @@ def shaped_names(names, shape, k):
     elif shape == 'twins':
         # names that differ from each other ONLY by letter case, by white space at an end, or by the way an accented
         # letter is encoded: any normalisation of a name (strip, lower, casefold, unicode normal form) merges two of them
-        low, up = [('k', 'K'), ('ab', 'aB'), ('é', 'é'), ('z z', 'Z z')][k]
+        low, up = [('k', 'K'), ('ab', 'aB'), ('\u00e9', 'e\u0301'), ('z z', 'Z z')][k]
         ctrl = [low, up, low + ' ', ' ' + low, ' ' + up, up + ' ', low + '\t']
         mem = [[low, up, low + ' ', ' ' + low], [up + ' ', up, low, ' ' + up], [low, up, up.upper() + ' ', low + ' '],
                [' ' + low, low, up, low + '  ']][k]
@@ -216,6 +242,9 @@ def shaped_names(names, shape, k):
 
 # =========================================================================== kinds of iterables (reference side)
 # every kind of object that is an Iterable[...] of the listed items, in the listed order
+# kinds of numbers of numpy (part 'numbers'): all of them are numbers for the library (numpy.integer / numpy.floating)
+NUMPY_INTS = ('int64', 'int32', 'uint8', 'int16', 'uint64', 'int8', 'uint16', 'intc')
+NUMPY_FLOATS = ('float64', 'float32', 'float16', 'longdouble')
 NAME_CONTAINERS = ('list', 'tuple', 'dict_keys', 'reiterable', 'generator', 'map', 'iterator', 'chain', 'once')
 ONE_SHOT = ('generator', 'map', 'iterator', 'chain', 'once')
 
@@ -743,10 +772,13 @@ def resolve_op(op, terms_now):
 
 
 # =========================================================================== the structures
-def structures(seed):
+def structures(seed, shape=None):
+    """The structures of a seed; with a shape (NAME_SHAPES) the same structures, named '<name>~<shape>', whose controller /
+    catalog / member / generic names are rewritten by shaped_names."""
     al = alphabet(seed)
-    n = al['names']
+    n = shaped_names(al['names'], shape, al['k'])
     m = n['m']
+    tail = '' if shape is None else f'~{shape}'
     b1, b2, b3, bf = B(al, 'b1'), B(al, 'b2'), B(al, 'b3'), B(al, 'bf', 1)
     x, y, z = V('x'), V('y'), V('z')
     segs = [dict(var='g', map=[(1, 'low'), (2, 'high')], ref=None, as_variable=False),
@@ -754,7 +786,7 @@ def structures(seed):
     S = []
 
     def add(name, term, helpers=(), big=False):
-        S.append(dict(name=name, term=term, helpers=list(helpers), big=big, seed=seed))
+        S.append(dict(name=name + tail, term=term, helpers=list(helpers), big=big, seed=seed, shape=shape, base=name))
 
     c1 = ('cat', n['c1'], None, [(m[0], x), (m[1], ('log', x))])
     c2 = ('cat', n['c2'], None, [(m[0], y), (m[2], ('*', y, y)), (m[3], ('exp', ('neg', y)))])
@@ -826,23 +858,25 @@ def structures(seed):
     return S
 
 
-def thorough_only(seed):
+def thorough_only(seed, shape=None):
     """The largest structure (thorough tier only): three controllers 3 x 4 x 2 = 24 configurations."""
     al = alphabet(seed)
-    n = al['names']
+    n = shaped_names(al['names'], shape, al['k'])
     m = n['m']
     b1, b2, b3, bf = B(al, 'b1'), B(al, 'b2'), B(al, 'b3'), B(al, 'bf', 1)
     x, y, z = V('x'), V('y'), V('z')
     t1 = ('cat', n['c1'], None, [(m[0], x), (m[1], ('log', x)), (m[2], ('pow', x, 2))])
     t2 = ('cat', n['c2'], None, [(m[3], y), (m[2], ('*', y, z)), (m[1], ('exp', ('neg', y))), (m[0], ('/', y, x))])
     t3 = ('cat', n['c3'], None, [(m[0], ('*', b3, z)), (m[3], ('-', bf, z))])
-    return dict(name='three3x4x2', term=('msum', [('*', b1, t1), ('*', b2, t2), t3, ('*', t1, t3)]), helpers=[], big=True, seed=seed)
+    return dict(name='three3x4x2' + ('' if shape is None else f'~{shape}'), term=('msum', [('*', b1, t1), ('*', b2, t2), t3, ('*', t1, t3)]),
+                helpers=[], big=True, seed=seed, shape=shape, base='three3x4x2')
 
 
 def get_structure(seed, name):
-    if name == 'three3x4x2':
-        return thorough_only(seed)
-    for st in structures(seed):
+    shape = name.split('~', 1)[1] if '~' in name else None
+    if name.split('~', 1)[0] == 'three3x4x2':
+        return thorough_only(seed, shape)
+    for st in structures(seed, shape):
         if st['name'] == name:
             return st
     raise KeyError(name)
@@ -1140,12 +1174,16 @@ class Built:
         # part 'orders': the menus of the controllers (the altered catalogs list other members), the constructor used
         self.menus = st.get('menus') or {}
         self.ctor = st.get('ctor')
+        # part 'numbers': the plain numbers of the formula WITH catalogs (members that are numbers, keys of the mappings
+        # of the potential segmentations) are handed over as numbers of numpy; the hand-written formula keeps Python's
+        self.numbers = st.get('numbers') if choice is None else None
+        self._npi = alphabet(st['seed'])['k']
         if choice is None:
             for h in st['helpers']:
                 betas = [self.build(b) for b in h['betas']]
                 pot = tuple(
-                    DiscreteSegmentationTuple(ex.Variable(s['var']) if s['as_variable'] else s['var'], dict(s['map']),
-                                              reference=s['ref'])
+                    DiscreteSegmentationTuple(ex.Variable(s['var']) if s['as_variable'] else s['var'],
+                                              {self.number(val): cat for val, cat in s['map']}, reference=s['ref'])
                     for s in h['segs'])
                 if h['kind'] == 'seg':
                     cats = segmentation_catalogs(generic_name=h['generic'], beta_parameters=betas,
@@ -1169,13 +1207,27 @@ class Built:
         else:
             self.expr = self.build(substitute(st['term'], st, choice))
 
+    def number(self, v):
+        """A plain number of the description as the kind of number the variant asks for (same value)."""
+        if self.numbers is None:
+            return v
+        import numpy as np
+        if self.numbers != 'numpy':
+            raise KeyError(self.numbers)
+        kinds = NUMPY_INTS if isinstance(v, int) else NUMPY_FLOATS
+        self._npi += 1
+        out = getattr(np, kinds[self._npi % len(kinds)])(v)
+        if float(out) != float(v) or not isinstance(out, np.generic):
+            raise RuntimeError(f'alphabet error: {v!r} is not representable as {type(out).__name__}')
+        return out
+
     def build(self, t):
         ex = self.ex
         k = t[0]
         if k == 'num':
             return ex.Numeric(t[1])
         if k == 'raw':
-            return t[1]
+            return self.number(t[1])
         if k == 'beta':
             if self.fresh:
                 return ex.Beta(t[1], t[2], None, None, t[3])
@@ -1534,6 +1586,101 @@ def tasks(tier, seed):
         for i in range(0, len(ids), TREEOPS_PER_TASK):
             t.append(dict(part='treeops', st=st['name'], seed=seed, tier=tier, cids=ids[i:i + TREEOPS_PER_TASK], depth=2,
                           modes=list(TREE_MODES if tier == 'thorough' else TREE_MODES[:2])))
+    # 'names': the same structures with every shape of names; 'numbers': plain numbers handed over as numbers of numpy
+    t += names_tasks(tier, seed)
+    t += numbers_tasks(tier, seed, sts)
+    return t
+
+
+NAMES_QUICK_OPS = ('indep23', 'gas_2x2')                  # quick tier: the transition relation of these structures only
+NAMES_QUICK_CONF = ('str', 'dict', 'current', 'op')       # quick tier: these ways of obtaining a Configuration object
+
+
+def shaped_structures(tier, seed):
+    """The structures explored with rewritten names: every structure of the tier x every shape of names."""
+    out = []
+    for shape in NAME_SHAPES:
+        out += structures(seed, shape)
+        if tier == 'thorough':
+            out.append(thorough_only(seed, shape))
+    return out
+
+
+def names_tasks(tier, seed):
+    """Part 'names'.  quick: static (all structures), the transition relation of two structures, the hidden-state product
+    and the histories of depth 1 on one Configuration object for the structures that are not big; thorough: static, hidden
+    and the Configuration-object histories (depth 1 over every way of obtaining the object, depth 2) on every structure,
+    the transition relation and the operator histories of depth 2 on the structures that are not big; both: the part
+    'orders'.  Not 'treeops' (its operations act on the names of parameters and variables, not on those of catalogs)."""
+    t = []
+    sts = shaped_structures(tier, seed)
+    thorough = tier == 'thorough'
+    for st in sts:
+        t.append(dict(part='static', st=st['name'], seed=seed, tier=tier))
+    for st in sts:
+        if st['base'] not in NAMES_QUICK_OPS and (not thorough or st['big']):
+            continue
+        sp = RefSpace(st)
+        ids = sp.all_ids()
+        per = 1 if len(sp.names) >= 3 else (2 if thorough else 3)
+        for i in range(0, len(ids), per):
+            t.append(dict(part='ops', st=st['name'], seed=seed, tier=tier, starts=ids[i:i + per]))
+    for st in sts:
+        if thorough or not st['big']:
+            t.append(dict(part='hidden', st=st['name'], seed=seed, tier=tier))
+    for st in sts:
+        if thorough and not st['big']:
+            for cid in RefSpace(st).all_ids():
+                t.append(dict(part='chains', st=st['name'], seed=seed, tier=tier, start=cid, depth=2, steps=[1, 2]))
+    for st in sts:
+        if thorough:
+            for kind in CONF_STARTS:
+                t.append(dict(part='confobj', st=st['name'], seed=seed, tier=tier, kinds=[kind], depth=1))
+            t.append(dict(part='confobj', st=st['name'], seed=seed, tier=tier, kinds=list(CONF_DEEP_STARTS), depth=2))
+        elif not st['big']:
+            t.append(dict(part='confobj', st=st['name'], seed=seed, tier=tier, kinds=list(NAMES_QUICK_CONF), depth=1))
+    for st in sts:
+        if not has_handwritten_catalog(st):
+            continue
+        if any(ctrl is not None for ctrl, _ in cat_nodes(st).values()):
+            t.append(dict(part='orders', st=st['name'], seed=seed, tier=tier, explicit=False))
+        t.append(dict(part='orders', st=st['name'], seed=seed, tier=tier, explicit=True))
+    return t
+
+
+def has_plain_numbers(st):
+    """True when the formula with catalogs is given plain numbers: a member that is a number, or potential segmentations
+    (the keys of their mappings)."""
+    found = []
+
+    def walk(t):
+        if isinstance(t, (tuple, list)):
+            if isinstance(t, tuple) and t and t[0] == 'raw':
+                found.append(t[1])
+            for a in t:
+                walk(a)
+
+    walk(st['term'])
+    return bool(found) or any(h['segs'] for h in st['helpers'])
+
+
+def numbers_tasks(tier, seed, sts):
+    """Part 'numbers': the structures that hand plain numbers to catalogs / segmentations, those numbers now of numpy."""
+    t = []
+    for st in sts:
+        if not has_plain_numbers(st):
+            continue
+        for kind in ('numpy',):
+            base = dict(st=st['name'], seed=seed, tier=tier, numbers=kind)
+            t.append(dict(base, part='static'))
+            if tier == 'thorough' or not st['big']:
+                t.append(dict(base, part='hidden'))
+            if tier == 'thorough':
+                sp = RefSpace(st)
+                ids = sp.all_ids()
+                per = 1 if len(sp.names) >= 3 else 2
+                for i in range(0, len(ids), per):
+                    t.append(dict(base, part='ops', starts=ids[i:i + per]))
     return t
 
 
@@ -1597,7 +1744,8 @@ def _catalog_names(st):
 
 def run_task(task, _raw=False):
     variant = task.get('names_as') is not None
-    rec = _TaggedRec(('containers', task['names_as'], bool(task.get('explicit')))) if variant else Rec()
+    rec = _TaggedRec(('containers', task['names_as'], bool(task.get('explicit')))) if variant else \
+        (_TaggedRec(('numbers', task['numbers'])) if task.get('numbers') else Rec())
     patch_random()
     try:
         st = get_structure(task['seed'], task['st'])
@@ -1605,6 +1753,8 @@ def run_task(task, _raw=False):
             st = dict(st, names_as=task['names_as'], explicit=bool(task.get('explicit')))
         elif task['part'] == 'orders' and task.get('explicit'):
             st = dict(st, explicit=True)
+        if task.get('numbers'):
+            st = dict(st, numbers=task['numbers'])
         space = RefSpace(st)
         case = {k: v for k, v in task.items() if k != 'fresh'}
         # what the finding key names: the structure; for the 'containers' variants the kind of iterable the controller
@@ -1616,6 +1766,14 @@ def run_task(task, _raw=False):
             where = f'controller-names-given-as-{kind}'
             label = f'{st["name"]}, controllers declared explicitly with their names as {task["names_as"]}' + \
                 ('' if task.get('explicit') else ' (shared controller only)')
+        elif task.get('numbers'):
+            # the kind of number does not depend on the formula around it either
+            where = f'plain-numbers-given-as-{task["numbers"]}-numbers'
+            label = f'{st["name"]}, numbers that are members of catalogs / keys of segmentations given as {task["numbers"]} numbers'
+        elif st.get('shape'):
+            # the handling of a name does not depend on the formula: the key names the shape of the names
+            where = f'names-{st["shape"]}'
+            label = f'{st["name"]} (controllers {list(space.ctrl)}, selections {sorted({s_ for v in space.ctrl.values() for s_ in v})})'
 
         def vio_factory(witness_prefix):
             def vio(clause, what, expected=None, observed=None, witness=None):
@@ -2220,7 +2378,7 @@ def _confobj(task, st, space, rec):
 
     def cvio(clause, what, expected, observed, pattern):
         # the behaviour of a Configuration object does not depend on the formula: the key names the history pattern only
-        key = f'C16|{clause}|Configuration-object:{pattern}'
+        key = f'C16|{clause}|Configuration-object:{pattern}' + (f':names-{st["shape"]}' if st.get('shape') else '')
         rec.violation(key, f'[{st["name"]}, seed {seed}] {what}', dict(case, key=key), expected=expected, observed=observed)
 
     def tuples(perm):
@@ -2456,15 +2614,24 @@ def alter_members(members, alteration):
         return members[:-1]
     if kind == 'rename-last':
         return members[:-1] + [(members[-1][0] + '~', members[-1][1])]
+    if kind in ('rename-last-blank', 'rename-last-case'):
+        return members[:-1] + [(near_name(members[-1][0], kind[12:]), members[-1][1])]
     if kind == 'extra':
         return members + [('extra~', members[0][1])]
     raise KeyError(kind)
 
 
+def near_name(name, how):
+    """Another name that a normalisation (white space at the ends, letter case) would confuse with `name`."""
+    return name + ' ' if how == 'blank' else name.swapcase()
+
+
 ORDER_WHERE = {'perm': 'catalog-members-in-another-order-than-its-controller',
                'extra': 'catalog-with-a-member-unknown-to-its-controller',
                'drop-last': 'catalog-lacking-an-alternative-of-its-controller',
-               'rename-last': 'catalog-lacking-an-alternative-of-its-controller'}
+               'rename-last': 'catalog-lacking-an-alternative-of-its-controller',
+               'rename-last-blank': 'catalog-lacking-an-alternative-of-its-controller',
+               'rename-last-case': 'catalog-lacking-an-alternative-of-its-controller'}
 
 
 def order_variants(st, explicit, tier):
@@ -2482,6 +2649,11 @@ def order_variants(st, explicit, tier):
         n = len(nodes[c][1])
         alts = [('perm', list(pm)) for pm in list(itertools.permutations(range(n)))[1:]]
         alts += ([('drop-last',)] if n >= 2 else []) + [('rename-last',), ('extra',)]
+        # the last member renamed into a name that differs from the selection of the controller only by a blank at its end
+        # / only by letter case: not that alternative (skipped when the catalog already has a member of that name)
+        last, others = nodes[c][1][-1], nodes[c][1][:-1]
+        alts += [(f'rename-last-{how}',) for how in ('blank', 'case')
+                 if near_name(last, how) != last and near_name(last, how) not in others]
         for a in alts:
             out.append({c: a})
     for ctrl, cs in by_ctrl.items():
@@ -2518,7 +2690,7 @@ def _orders(task, st, space, rec):
                  f'and the members {({c: alter_names(cat_nodes(st)[c][1], a) for c, a in alt.items()})}; controllers {menus}')
 
         def ovio(clause, what, expected=None, observed=None, witness=None):
-            key = f'C16|{clause}|{where}'
+            key = f'C16|{clause}|{where}' + (f':names-{st["shape"]}' if st.get('shape') else '')
             rec.violation(key, f'[{label}] {what}', dict(case, key=key), expected=expected, observed=observed)
 
         term = rewrite_cats(st['term'], lambda nd: ('cat', nd[1], nd[2], alter_members(nd[3], alt[nd[1]])) if nd[1] in alt else nd)
@@ -2535,7 +2707,7 @@ def _orders(task, st, space, rec):
             continue
         n_accepted += 1
         rec.case(ckey, ('accepted',), outcome=('orders', kinds[0], 'accepted'))
-        if kinds[0] in ('drop-last', 'rename-last'):
+        if kinds[0] == 'drop-last' or kinds[0].startswith('rename-last'):
             ovio('catalog-cannot-take-the-alternative-of-its-controller',
                  'the catalog is accepted although it has no member for one of the selections of its controller',
                  'refused (BiogemeError)', 'accepted')
@@ -2800,6 +2972,7 @@ def on_abort(task, info):
 # =========================================================================== cross-task oracle
 def finalize(agg, tier, seed):
     sts = structures(seed) + ([thorough_only(seed)] if tier == 'thorough' else [])
+    sts = sts + shaped_structures(tier, seed)         # part 'names': every shaped structure runs (at least) the part 'static'
     want = sum(RefSpace(st).size() for st in sts)
     agg.counts['configurations_in_all_products'] = want
     agg.counts['structures'] = len(sts)
